@@ -23,7 +23,7 @@
     [C04_mux_deadlock_in_model] records that with remote connections multiplexed per
     (block pair, host pair) the obligations cannot hold: the model has a reachable stuck state. *)
 From Noir Require Import Base.Elem Model.Start Model.BinaryStart Model.Net
-  Proofs.StartSpec Proofs.NetProofs Proofs.NetDagProofs Proofs.NetLoopProofs.
+  Proofs.StartSpec Proofs.NetProofs Proofs.NetDagProofs Proofs.NetLoopProofs Proofs.NetMuxProofs.
 From Coq Require Import List Arith.
 Import ListNotations.
 Open Scope nat_scope.
@@ -147,6 +147,35 @@ Proof. exact mux_hol_deadlock. Qed.
 Theorem C04_mux_join_deadlock_in_model : exists s, reachable mux_join_net s /\ stuck mux_join_net s.
 Proof. exact mux_join_deadlock. Qed.
 
+(** ---- several hosts: networks WITH demultiplexers (one connection per block pair and host
+    pair, blocking hand-over to the destination's channel). Every such acyclic network is
+    deadlock-free and terminates for every schedule, data volume and capacity PROVIDED no side
+    of a two-input block has more producers than its channel holds ([mcap_ok]: kl <= cap l and
+    kr <= cap r; single-input blocks and demultiplexers never refuse their input and need no
+    condition). The condition cannot be dropped: the description of [mux_join_net] satisfies
+    everything else and deadlocks — that is known finding F13 (engine: capacity 16, 17+
+    producers). ---- *)
+Theorem C04_multi_host_no_deadlock : forall D, mdag_ok D ->
+  forall s, reachable (mnet_of D) s -> ~ stuck (mnet_of D) s.
+Proof. exact mux_safe_no_deadlock. Qed.
+Theorem C04_multi_host_job_terminates : forall D, mdag_ok D ->
+  (exists s', steps (mnet_of D) (n_init (mnet_of D)) s' /\ final (mnet_of D) s') /\
+  (forall f : nat -> state emsg rstate, f 0 = n_init (mnet_of D) -> ~ (forall k, step (mnet_of D) (f k) (f (S k)))) /\
+  (forall s, reachable (mnet_of D) s -> (forall s', ~ step (mnet_of D) s s') -> final (mnet_of D) s).
+Proof. exact mux_safe_job_terminates. Qed.
+Theorem C04_multi_host_ok_decidable : forall D, mdag_okb D = true <-> mdag_ok D.
+Proof. exact mdag_okb_spec. Qed.
+(** boundary: the F13 shape meets every structural condition, fails only the capacity
+    condition, and deadlocks; with 2 + 2 producers and capacity 2 the theorem applies *)
+Theorem C04_capacity_condition_needed : forall o,
+  mstruct_okb (mux_join_dag o) = true /\ mcap_okb (mux_join_dag o) = false.
+Proof. intros o. split; [apply mux_join_dag_struct | apply mux_join_dag_cap]. Qed.
+Theorem C04_capacity_condition_deadlock :
+  exists s, reachable (mnet_of (mux_join_dag false)) s /\ stuck (mnet_of (mux_join_dag false)) s.
+Proof. exact mux_join_dag_deadlock. Qed.
+Example C04_multi_host_example : forall o, mdag_ok (j2_dag o 2).
+Proof. intros o. apply mdag_okb_spec. apply j2_dag_ok. Qed.
+
 (** ---- loops (instances of the same network model with the loop heads, the feedback edge and
     the leader as nodes; Proofs/NetLoopProofs.v) ----
     replay: head, 2 body replicas behind a shuffle, leader, 2 rounds, capacity 1 — for EVERY
@@ -174,6 +203,9 @@ Theorem C04_iterate_threshold_safe :
 Proof. exact iter_net_c2_k2_faithful_no_deadlock. Qed.
 
 Print Assumptions C04_no_deadlock.
+Print Assumptions C04_multi_host_no_deadlock.
+Print Assumptions C04_multi_host_job_terminates.
+Print Assumptions C04_capacity_condition_deadlock.
 Print Assumptions C04_replay_instance_no_deadlock.
 Print Assumptions C04_iterate_feedback_deadlock_in_model.
 Print Assumptions C04_mux_join_deadlock_in_model.
